@@ -108,6 +108,11 @@ pub fn run(ctx: &Ctx) -> CheckResult {
                     c.steps[0].env.push(("TRUTH_MAP_PATH".into(), "map".into()));
                     c.name.push_str(" env=TRUTH_MAP_PATH");
                 }
+                // every other configuration decompiles the documented way: `decompile FILE > out.txt`
+                if (mi + wi) % 2 == 1 {
+                    scen::decompile_to_stdout(&mut c.steps[0]);
+                    c.name.push_str(" >stdout");
+                }
                 c.property = "C01".into();
                 c.oracle = "roundtrip".into();
                 c.meta = json!({"orig_step": null, "orig_file": item.path.clone().unwrap(), "dec": 0, "comp": 1, "item": item.id});
@@ -145,6 +150,11 @@ pub fn run(ctx: &Ctx) -> CheckResult {
             base.property = "C01".into();
             let seed = rng::mix(ctx.seed, &base.name, 104);
             jobs.push(FaultJob { base: base.clone(), step: 0, space: FaultSpace { read_side: false, write_side: true, budgets: if quick { Budgets::BoundariesPlus(12) } else { Budgets::Complete }, seed }, noise: true, max_variants: 0 });
+            // the same with the text going to a redirected stdout
+            let mut via_stdout = base.clone();
+            scen::decompile_to_stdout(&mut via_stdout.steps[0]);
+            via_stdout.name.push_str(" >stdout");
+            jobs.push(FaultJob { base: via_stdout, step: 0, space: FaultSpace { read_side: false, write_side: true, budgets: if quick { Budgets::Boundaries } else { Budgets::BoundariesPlus(64) }, seed }, noise: !quick, max_variants: 0 });
             jobs.push(FaultJob { base, step: 1, space: FaultSpace { read_side: true, write_side: true, budgets: if quick { Budgets::Boundaries } else { Budgets::BoundariesPlus(48) }, seed }, noise: true, max_variants: if quick { 120 } else { 0 } });
         }
     }
